@@ -79,6 +79,26 @@ func (r *pieceReader) Read(p []byte) (int, error) {
 	return n, nil
 }
 
+// writerToReader: a body stream that writes itself (the shape of the file handler's readers).
+type writerToReader struct{ *pieceReader }
+
+func (r *writerToReader) WriteTo(w io.Writer) (int64, error) {
+	var n int64
+	for i := 0; len(r.data) > 0; i++ {
+		k := len(r.data)
+		if i < len(r.sizes) && r.sizes[i] < k {
+			k = r.sizes[i]
+		}
+		m, err := w.Write(r.data[:k])
+		n += int64(m)
+		r.data = r.data[m:]
+		if err != nil {
+			return n, err
+		}
+	}
+	return n, nil
+}
+
 func genProg(tp *core.Tape, idx int, ep *core.Episode, method string) *respProg {
 	p := &respProg{}
 	p.status = c04Statuses[tp.Choose("status", len(c04Statuses))]
@@ -137,9 +157,14 @@ func genProg(tp *core.Tape, idx int, ep *core.Episode, method string) *respProg 
 	}
 	body := core.PatternBytes(byte(50+idx), size)
 	mkReader := func() io.Reader {
-		r := &pieceReader{data: append([]byte(nil), body...), zeroes: zeroReads(ep, tp), eofw: tp.Choose("reofw", 2) == 1}
+		ek := tp.Choose("reofw", 3) // 0/1 as before (recorded tapes); 2: the stream also implements io.WriterTo
+		r := &pieceReader{data: append([]byte(nil), body...), zeroes: zeroReads(ep, tp), eofw: ek == 1}
 		for i := 0; i < 5; i++ {
 			r.sizes = append(r.sizes, 1+tp.Choose("rsz", 6000))
+		}
+		if ek == 2 {
+			ep.Probe("stream-writer-to")
+			return &writerToReader{r}
 		}
 		return r
 	}
